@@ -137,7 +137,9 @@ def run_versions(spec, res):
     if mode == "silent-then-table":
         who_first = "producer"
     with Traps():
-        client = w.client(timeout=1000, enable_protocol_version_discovery=True)
+        cid_spec = rng.choice((None, None, "", "x", "afkak-verif \u00fcn\u00ef", b"bytes-id", b""))
+        kw_cid = {} if cid_spec is None else dict(clientId=cid_spec)
+        client = w.client(timeout=1000, enable_protocol_version_discovery=True, **kw_cid)
         producer = Producer(client, req_acks=1, max_req_attempts=4, retry_interval=0.1, codec=codec)
         consumers = []
 
@@ -193,6 +195,17 @@ def run_versions(spec, res):
     if failed_disc:
         res.hit("discovery_failed_scenarios")
     census = frames_ok(res, cl, "version-discovery")
+    # the client id in every request header is the one the caller supplied (empty is not absent)
+    want_cid = b"afkak-client" if cid_spec is None else (cid_spec if isinstance(cid_spec, bytes) else
+                                                         cid_spec.encode("utf-8"))
+    for e in cl.history:
+        if "req" in e:
+            got = e.get("client_id")
+            if got != want_cid:
+                res.violate("e2e/client-id-differs", "KafkaClient(clientId=%r) put client id %r in a %s request header, "
+                            "expected %r" % (cid_spec, got, e["api"], want_cid))
+                break
+    res.ob("client_id_as_supplied")
     adv = {}
     for (k, lo, hi) in table:
         adv[k] = (lo, hi)
